@@ -367,6 +367,18 @@ class PDLInterpFunctions(InterpreterFunctions):
         )
         return ()
 
+    @impl(pdl_interp.EraseOp)
+    def run_erase(
+        self,
+        interpreter: Interpreter,
+        op: pdl_interp.EraseOp,
+        args: tuple[Any, ...],
+    ) -> tuple[Any, ...]:
+        (input_op,) = args
+        assert isinstance(input_op, Operation)
+        self.get_rewriter(interpreter).erase(input_op)
+        return ()
+
     @impl(pdl_interp.CreateAttributeOp)
     def run_create_attribute(
         self,
